@@ -166,9 +166,35 @@ def kept(case, r):
     return True
 
 
+_PRIMED = []
+
+
+def prime_process():
+    """once per process, before any case: another layer compiles time-comparison and cumulative metrics that carry every optional declaration
+    (a custom time_offset, each calculation, windows) at several grains -- what other dashboards of the same service did earlier.  No case may depend on it."""
+    if _PRIMED:
+        return
+    _PRIMED.append(1)
+    from sidemantic import Dimension, Metric, Model
+    L = dbutil.fresh_layer()
+    mets = [Metric(name="tv", agg="sum", sql="v")]
+    for k, (ct, off) in enumerate([("prior_period", "2 weeks"), ("yoy", "2 years"), ("mom", "3 months"), ("wow", "2 weeks"), ("dod", "3 days"), ("qoq", "2 quarters"), ("prior_period", "1 month")]):
+        for calc in ("difference", "percent_change", "ratio"):
+            mets.append(Metric(name="p%d%s" % (k, calc[0]), type="time_comparison", base_metric="t.tv", comparison_type=ct, time_offset=off, calculation=calc))
+    mets.append(Metric(name="cw", type="cumulative", sql="t.tv", window="14 days"))
+    L.add_model(Model(name="t", table="t", primary_key="id", dimensions=[Dimension(name="ts", type="time", granularity="day", sql="ts")], metrics=mets))
+    for g in ("day", "week", "month", "quarter", "year"):
+        for m in mets[1:]:
+            try:
+                L.compile(metrics=["t." + m.name], dimensions=["t.ts__" + g])
+            except Exception:
+                pass
+
+
 def real(case):
     """-> {metric name: {(t_us, key...): value}} from the real implementation"""
     from sidemantic import Dimension, Model
+    prime_process()
     L = dbutil.fresh_layer()
     L.conn.execute("create table t(id bigint, ts timestamp, cat varchar, reg varchar, v bigint, w bigint)")
     for (i, t, combo, v, w) in case["rows"]:
